@@ -304,29 +304,32 @@ def run(out: Outcome) -> None:
     # one detector OBJECT used again: fit(A), compare, fit(B), compare (and with reset() in between) - the second comparison is against B and nothing else
     for name, cls in {**BINNED, **PROB, **TRANSPORT}.items():
         kw = {} if name in TRANSPORT else {"num_bins": rng.choice([3, 5, 10])}
-        A = sample(rng, rng.randint(8, 40), rng.choice(["cont", "shift", "tied"]))
-        B = sample(rng, rng.randint(8, 40), rng.choice(["disjoint", "low", "shift", "edges"]))
-        T1, T2 = sample(rng, rng.randint(8, 40), "cont"), sample(rng, rng.randint(8, 40), rng.choice(["cont", "shift", "disjoint"]))
-        for with_reset in (False, True):
-            d = cls(**kw)
-            d.fit(X=np.array(A, dtype=float))
-            first = float(d.compare(X=np.array(T1, dtype=float))[0].distance)
-            if with_reset:
-                d.reset()
-            d.fit(X=np.array(B, dtype=float))
-            again = float(d.compare(X=np.array(T2, dtype=float))[0].distance)
-            self_b = float(d.compare(X=np.array(B, dtype=float))[0].distance)
-            want, want_first = dist(cls, B, T2, **kw), dist(cls, A, T1, **kw)
-            r = {"detector": name, "A": A, "B": B, "T1": T1, "T2": T2, "kwargs": kw, "reset_between": with_reset, "kind": "refit"}
-            same = lambda a, b: (math.isnan(a) and math.isnan(b)) or a == b or approx(a, b, 1e-12)  # noqa: E731
-            if not same(first, want_first):
-                out.violation(f"{name}: fit(A); compare(T1) gives {first!r}, a new detector gives {want_first!r}", r)
-            if not same(again, want):
-                out.violation(f"{name}: fit(A); compare; {'reset(); ' if with_reset else ''}fit(B); compare(T2) gives {again!r}, a new detector fitted on B gives {want!r} "
-                              "(the comparison is not against the reference fitted last)", r)
-            if not (name == "js" and min(B) == max(B)) and not abs(self_b) <= 1e-9 and not math.isnan(dist(cls, B, B, **kw)):
-                out.violation(f"{name}: after re-fitting on B, compare(B) gives {self_b!r}, not 0", r)
-            out.case({"refit": name, "reset_between": with_reset, "h": hash(tuple(A + B + T1 + T2)) & 0xFFFFFF})
+        # the two references differ in LOCATION (B far from A) or in SPREAD (A wide, B and the test sample narrow inside it): anything of A that survives the second fit - its
+        # values, its histogram, its range - then shows
+        for variant in (("cont", "disjoint", "cont"), ("wide", "nested", "nested")) + ((("tied", "low", "shift"),) if thorough else ()):
+            A = sample(rng, rng.randint(8, 40), variant[0]) if variant[0] != "wide" else [rng.uniform(-50, 50) for _ in range(rng.randint(8, 40))]
+            B = sample(rng, rng.randint(8, 40), variant[1])
+            T1, T2 = sample(rng, rng.randint(8, 40), "cont"), sample(rng, rng.randint(8, 40), variant[2])
+            for with_reset in (False, True):
+                d = cls(**kw)
+                d.fit(X=np.array(A, dtype=float))
+                first = float(d.compare(X=np.array(T1, dtype=float))[0].distance)
+                if with_reset:
+                    d.reset()
+                d.fit(X=np.array(B, dtype=float))
+                again = float(d.compare(X=np.array(T2, dtype=float))[0].distance)
+                self_b = float(d.compare(X=np.array(B, dtype=float))[0].distance)
+                want, want_first = dist(cls, B, T2, **kw), dist(cls, A, T1, **kw)
+                r = {"detector": name, "A": A, "B": B, "T1": T1, "T2": T2, "kwargs": kw, "reset_between": with_reset, "kind": "refit"}
+                same = lambda a, b: (math.isnan(a) and math.isnan(b)) or a == b or approx(a, b, 1e-12)  # noqa: E731
+                if not same(first, want_first):
+                    out.violation(f"{name}: fit(A); compare(T1) gives {first!r}, a new detector gives {want_first!r}", r)
+                if not same(again, want):
+                    out.violation(f"{name}: fit(A); compare; {'reset(); ' if with_reset else ''}fit(B); compare(T2) gives {again!r}, a new detector fitted on B gives {want!r} "
+                                  "(the comparison is not against the reference fitted last)", r)
+                if not (name == "js" and min(B) == max(B)) and not abs(self_b) <= 1e-9 and not math.isnan(dist(cls, B, B, **kw)):
+                    out.violation(f"{name}: after re-fitting on B, compare(B) gives {self_b!r}, not 0", r)
+                out.case({"refit": name, "reset_between": with_reset, "h": hash(tuple(A + B + T1 + T2)) & 0xFFFFFF})
     if "KF-C10-1" in out.findings:
         check_pair(out, rng, [3.25] * 5, [3.25] * 5, 10, [], [])
     if "KF-C10-3" in out.findings:
